@@ -110,7 +110,11 @@ def gen_body(rng):
         if rng.random() < 0.1:
             hexsz = "0" + hexsz
         out += hexsz.encode() + b"\r\n" + data + b"\r\n"
-    out += b"0\r\n\r\n"
+    # the last-chunk, optional trailer fields (each a line of its own), the closing CRLF
+    out += rng.choice([b"0", b"0", b"00", b"0000"]) + b"\r\n"
+    for _ in range(rng.choice([0, 0, 0, 1, 2])):
+        out += rng.choice([b"X-Trailer: v", b"X-Checksum: 1", b"Expires: never", b"a:", b"x", b"T: " + b"y" * rng.randint(0, 40)]) + b"\r\n"
+    out += b"\r\n"
     te = randcase(rng, "Transfer-Encoding").encode() + b": " + rng.choice([b"chunked", b"Chunked", b"CHUNKED", b"chunked", b"chunke", b"ch"])
     return [te], out, "chunked"
 
